@@ -361,5 +361,68 @@ def check_program(c, rec):
     rec.tag(*sorted(it.flags))
 
 
+# ---- the flag rule for EVERY op of both catalogues, in both modes ------------------------------------
+def make_flag_check(op):
+    from .. import ops as _ops
+
+    def check(case, rec):
+        env.reset_global_modes()
+        args = case["args"]
+        rg = case["rg"]
+        no_grad = case["no_grad"]
+        rec.nontrivial(no_grad and any(rg) or (any(rg) and not all(rg)))
+        rec.tag("no_grad" if no_grad else "grad_on", "some_rg" if any(rg) else "none_rg")
+        ts = _ops.leaves(case, rg=rg)
+        try:
+            if no_grad:
+                with sg.no_grad():
+                    out = op.apply(ts, args)
+            else:
+                out = op.apply(ts, args)
+        except Exception:  # noqa: BLE001
+            rec.skip = "forward_rejected"
+            return
+        outs = list(out) if isinstance(out, (tuple, list)) else [out]
+        want = (not no_grad) and any(rg)
+        ctx = f"op={op.name} args={args} operands require grad={rg} grad mode enabled={not no_grad}"
+        if op.name == "dropout" and not args["training"] and any(outs[0] is t for t in ts):
+            rec.skip = "documented_identity_returns_operand"     # eval-mode Dropout is documented as the identity
+            return
+        for o in outs:
+            if o.requires_grad != want:
+                raise Violation("result_flag", f"result requires_grad={o.requires_grad}, expected {want}; {ctx}")
+            if (o.grad_fn is not None) != want:
+                raise Violation("grad_fn_flag", f"result grad_fn is {'set' if o.grad_fn is not None else 'None'}, "
+                                                f"expected {'set' if want else 'None'}; {ctx}")
+            if any(o is t for t in ts):
+                if not want and any(t.requires_grad for t in ts if t is o):
+                    raise Violation("result_flag", f"the op returned its own operand (which requires grad) as an untracked result; {ctx}")
+            if not want:
+                try:
+                    o.backward(Tensor(np.ones(o.shape, dtype=o.dtype if o.dtype.kind == "f" else np.float32)))
+                except Exception:  # noqa: BLE001
+                    pass
+                else:
+                    raise Violation("backward_accepted", f"backward() accepted on a result that must not require grad; {ctx}")
+                with contextlib.redirect_stdout(io.StringIO()):
+                    if o.grad is not None:
+                        raise Violation("grad_on_nonrequiring", f"an untracked result acquired a .grad; {ctx}")
+    return check
+
+
+@st.composite
+def flag_case(draw, op):
+    from .. import ops as _ops
+    c = draw(_ops.full_case(op, need_grad=False))
+    c["no_grad"] = draw(st.booleans())
+    return c
+
+
 def subchecks():
-    return [SubCheck("programs", check_program, programs, quick=300, thorough=4000, shards_quick=8, shards_thorough=16)]
+    from .. import nnops, ops as _ops
+    subs = [SubCheck("programs", check_program, programs, quick=300, thorough=4000, shards_quick=8, shards_thorough=16)]
+    for op in _ops.OPS:
+        subs.append(SubCheck("flag_t_" + op.name, make_flag_check(op), (lambda op=op: flag_case(op)), quick=120, thorough=1500))
+    for op in nnops.OPS + [nnops.DROPOUT]:
+        subs.append(SubCheck("flag_nn_" + op.name, make_flag_check(op), (lambda op=op: flag_case(op)), quick=100, thorough=1000))
+    return subs
